@@ -1,4 +1,4 @@
 import Hostd.Drive.Wallet
 open Hostd
-def main : IO Unit := do
-  Proto.loop (← IO.getStdin) ({} : Drive.Wallet.DState) Drive.Wallet.step Drive.Wallet.stats
+def main (args : List String) : IO Unit := do
+  Proto.loop (← IO.getStdin) ({ strictF1 := args.contains "--strict-formation1" } : Drive.Wallet.DState) Drive.Wallet.step Drive.Wallet.stats
